@@ -201,6 +201,42 @@ def _flat(o):
         yield o
 
 
+def _unused_imports(sc, m):
+    """Imports of module m that nothing in m refers to (droppable without touching its functions)."""
+    mods, funcs = sc["modules"], sc["funcs"]
+    if mods[m].get("umbrella"):
+        return []
+    gmod = {g["name"]: g["mod"] for g in sc["globals"]}
+    need = set()
+    for f in funcs:
+        if f["mod"] != m:
+            continue
+        for c in f["calls"]:
+            need.add(funcs[c["f"]]["mod"])
+        if f.get("glob"):
+            need.add(gmod.get(f["glob"]))
+    return [x for x in mods[m]["imports"] if x not in need]
+
+
+def _apply_drops(sc, dropped):
+    """The scenario with the import lines that recompilations have removed taken out."""
+    if not dropped:
+        return sc
+    sc = dict(sc)
+    mods = [dict(mm) for mm in sc["modules"]]
+    for m, xs in dropped.items():
+        if m >= len(mods):
+            continue
+        mod = mods[m]
+        keep = [k for k, x in enumerate(mod["imports"]) if x not in xs]
+        rep_ = mod.get("repeat_import")
+        mod["imports"] = [mod["imports"][k] for k in keep]
+        mod["place"] = [mod["place"][k] for k in keep]
+        mod["repeat_import"] = keep.index(rep_) if rep_ in keep else None
+    sc["modules"] = mods
+    return sc
+
+
 def _flat_equal(a, b):
     fa, fb = list(_flat(a)), list(_flat(b))
     if len(fa) != len(fb):
@@ -339,6 +375,7 @@ def _execute(sc, store):
     variants = {}  # module -> variant of the latest stored compile (current generation)
     inmem = {}  # module -> IR module object of the latest compile
     cur_gen = None
+    dropped = {}  # module -> imports its latest recompilation no longer has (current generation)
     refs = {}
     canon_by_state = {}
 
@@ -411,7 +448,9 @@ def _execute(sc, store):
         gen = st["gen"]
         if gen >= len(sc0["gens"]):
             continue
-        sc = gen16.view(sc0, gen)
+        if gen != cur_gen:
+            dropped = {}
+        sc = _apply_drops(gen16.view(sc0, gen), dropped)
         mods = sc["modules"]
         if gen != cur_gen:
             cur_gen = gen
@@ -429,6 +468,13 @@ def _execute(sc, store):
                 continue
             if any(not os.path.exists(file_of(x)) for x in mods[m]["imports"]):
                 continue  # (shrunk schedules) an import was never stored
+            if st.get("variant", 0) % 2 == 1 and _unused_imports(sc, m):
+                # the rebuilt module has lost an import line it never used; its importers stay as they
+                # were compiled.  (A module nobody imports any more is added by the host itself.)
+                dropped.setdefault(m, set()).add(_unused_imports(sc, m)[0])
+                sc = _apply_drops(gen16.view(sc0, gen), dropped)
+                mods = sc["modules"]
+                bump("recompiled_without_an_unused_import")
             src = gen16.module_src(sc, m, gen, st.get("variant", 0))
             with open(mods[m]["name"] + ".nsl", "w") as f:
                 f.write(src)
@@ -503,6 +549,13 @@ def _execute(sc, store):
             add = [m for m in st["add"] if m < nm]
             if not add:
                 continue
+            if dropped:
+                orphans = sorted(set(range(nm)) - _closure(sc, add))
+                if orphans and st["via"] == "nslr":
+                    continue  # nslr.py starts from one root
+                if orphans:
+                    add = add + orphans
+                    bump("links_with_a_module_orphaned_by_a_dropped_import")
             closure = _closure(sc, add)
             if len(closure) != nm:
                 continue  # (shrunk) the add set no longer covers the program
